@@ -139,17 +139,17 @@ theorem isArrivalWait_sound (b : Backend) (hb : Backend.isConsole b = true) (q :
 def consoleBlocks : List Sess := [
   asaCheck .change, iosCheck .change, linuxCheck .change,
   (GetCmdOutput .probe (.lit "echo $?") ["echo $?"] ;;
-   .ite (.not (.flag .status0)) "s.conn.GetCmdOutput(\"echo $?\") != \"0\\n\""
+   .ite (.not (.flag .status0)) "$r.conn.GetCmdOutput(\"echo $?\") != \"0\\n\""
      (.abort ["%s failed (exit status)", "_"]) .skip),
   (GetCmdOutput .save (.lit "write memory") ["write memory"] ;;
-   .ite (.not (.flag .okMark)) "!strings.Contains(out, \"[OK]\")"
+   .ite (.not (.flag .okMark)) "¬strings.Contains($GetCmdOutput, \"[OK]\")"
      (.abort ["Command 'write memory' failed, missing [OK] in output:\n%s", "_"]) .skip),
   (IssueCmd .save (.lit "write memory") (.stdOr [.confirm]) ["write memory", "#[ ]?|\\[confirm\\]"] ;;
-   .ite (.flag .overwrite) "strings.Contains(out, \"Overwrite the previous NVRAM configuration\")"
+   .ite (.flag .overwrite) "strings.Contains($IssueCmd, \"Overwrite the previous NVRAM configuration\")"
      (GetCmdOutput .save (.lit "") [""]) .skip ;;
-   .ite (.flag .okMark) "strings.Contains(out, \"[OK]\")" (.ret .none []) .skip ;;
-   .ite (.flag .openFailed) "strings.Contains(out, \"startup-config file open failed\")"
-     (.ite .ctrPos "retries > 0" (.decCtr ;; .cont) .skip ;;
+   .ite (.flag .okMark) "strings.Contains($IssueCmd, \"[OK]\")" (.ret .none []) .skip ;;
+   .ite (.flag .openFailed) "strings.Contains($IssueCmd, \"startup-config file open failed\")"
+     (.ite .ctrPos "$const > 0" (.decCtr ;; .cont) .skip ;;
       .abort ["write mem: startup-config open failed - giving up"]) .skip ;;
    .abort ["write mem: unexpected result: %s", "_"]) ]
 
